@@ -344,3 +344,19 @@ func verifAcctObligations(w *vAcctWorld, nsess int) {
 func init() {
 	vHarness["VerifC08_History"] = VerifC08_History
 }
+
+// VerifAcctSessionIDs lists the distinct Acct-Session-Id values the server has seen.
+func VerifAcctSessionIDs() []string {
+	var ids []string
+	for _, e := range vRadiusLog() {
+		id := rfc2866.AcctSessionID_GetString(e.(*lradius.Packet))
+		dup := false
+		for _, x := range ids {
+			dup = dup || x == id
+		}
+		if !dup {
+			ids = append(ids, id)
+		}
+	}
+	return ids
+}
